@@ -2,7 +2,7 @@
    backtracking matcher for RE_EXTENT_DESCRIPTOR), the sparse extent header variants and the
    embedded descriptor of SparseDisk.__init__.  No proofs here. *)
 From Coq Require Import String ZArith List Bool Lia.
-From DH Require Import Base.Plan Base.Layout Gen.Consts Gen.Layouts Model.MetaCodec.
+From DH Require Import Base.Plan Base.Layout Gen.Consts Gen.Layouts Gen.MetaVmdkTables Model.MetaCodec.
 Import ListNotations.
 Open Scope list_scope.
 Open Scope Z_scope.
@@ -37,6 +37,10 @@ Fixpoint cap_get (c : caps) (n : nat) : option (list Z) :=
   | (m, v) :: r => if Nat.eqb m n then Some v else cap_get r n
   end.
 
+(* the text consumed between two positions of the input (s' is a suffix of s) *)
+Definition taken (s s' : list Z) : list Z := firstn (length s - length s') s.
+Arguments taken : simpl never.
+
 Fixpoint star_match (cl : cls) (s : list Z) (c : caps) (k : list Z -> caps -> option caps) : option caps :=
   match s with
   | x :: s' => if in_cls cl x
@@ -54,7 +58,7 @@ Fixpoint rmatch (r : re) (s : list Z) (c : caps) (k : list Z -> caps -> option c
   | RSeq a b => rmatch a s c (fun s' c' => rmatch b s' c' k)
   | RAlt a b => match rmatch a s c k with Some x => Some x | None => rmatch b s c k end
   | ROpt a => match rmatch a s c k with Some x => Some x | None => k s c end
-  | RGrp n a => rmatch a s c (fun s' c' => k s' ((n, firstn (length s - length s') s) :: c'))
+  | RGrp n a => rmatch a s c (fun s' c' => k s' ((n, taken s s') :: c'))
   | REnd => match s with [] => k s c | _ => None end
   end.
 
@@ -69,12 +73,11 @@ Fixpoint seqs (l : list re) : re :=
   match l with [] => REps | [a] => a | a :: r => RSeq a (seqs r) end.
 
 (* RE_EXTENT_DESCRIPTOR; groups: 1 access_mode 2 sectors 3 type 5 filename 7 start_sector
-   9 partition_uuid 11 device_identifier.  The lists of alternatives are the generated ones
-   when Gen/MetaTables.v is present (tools/translate_meta.py); see Proofs/MetaVmdk.v. *)
-Definition ACCESS_MODES : list (list Z) := [lit "RW"; lit "RDONLY"; lit "NOACCESS"].
-Definition EXTENT_TYPES : list (list Z) :=
-  [lit "SPARSE"; lit "ZERO"; lit "FLAT"; lit "VMFS"; lit "VMFSSPARSE"; lit "VMFSRDM"; lit "VMFSRAW";
-   lit "SESPARSE"].
+   9 partition_uuid 11 device_identifier.  The lists of alternatives and the line prefixes are
+   generated from the source (Gen/MetaTables.v, tools/translate_meta.py, which also checks that
+   the pattern still has the shape [re_extent_of] implements). *)
+Definition ACCESS_MODES : list (list Z) := meta_extent_access.
+Definition EXTENT_TYPES : list (list Z) := meta_extent_types.
 
 Definition re_extent_of (access types : list (list Z)) : re :=
   seqs [RGrp 1 (alts (map RLit access)); RCls CSpace;
@@ -121,7 +124,7 @@ Record descriptor := {
 
 Definition dd0 : descriptor := {| dd_attr := []; dd_extents := []; dd_ddb := []; dd_sectors := 0 |}.
 
-Definition extent_prefixes : list (list Z) := [lit "RW "; lit "RDONLY "; lit "NOACCESS "].
+Definition extent_prefixes : list (list Z) := meta_extent_prefixes.
 
 Definition parse_line (d : descriptor) (raw : list Z) : res descriptor :=
   let line := strip is_space raw in
